@@ -225,6 +225,35 @@ pub fn run(ctx: &Ctx) {
         },
         check_pair,
     );
+    ctx.generated(
+        "machine-word-operands",
+        "pair",
+        t.pick(150_000, 2_000_000),
+        "unscaled integers around 2^31, 2^32, 2^63, 2^64, 2^127, 2^128 (+- small, or anywhere in the binade) on either side, scale gaps 0..3 (mostly equal scales), both signs",
+        || {
+            fn word(which: u8, how: u8, r: u64) -> num_bigint::BigInt {
+                let base = num_bigint::BigInt::from(1) << [31usize, 32, 63, 64, 127, 128][which as usize % 6];
+                match how % 4 {
+                    0 => &base + num_bigint::BigInt::from(r % 7) - 3,
+                    1 => &base - num_bigint::BigInt::from(1 + r % 100_000),
+                    // anywhere in the binade above the base
+                    2 => &base + (&base * num_bigint::BigInt::from(r % 1_000_000)) / num_bigint::BigInt::from(1_000_000),
+                    _ => num_bigint::BigInt::from(r),
+                }
+            }
+            (0..6u8, 0..4u8, any::<u64>(), 0..6u8, 0..4u8, any::<u64>(), 0..4u8, -20i64..=20, 0..8u8)
+                .prop_map(|(wa, ha, ra, wb, hb, rb, signs, scale, gap)| {
+                    let (a, b) = (word(wa, ha, ra), word(wb, hb, rb));
+                    let b = if b == num_bigint::BigInt::from(0) { num_bigint::BigInt::from(3) } else { b };
+                    let a = if signs & 1 == 1 { -a } else { a };
+                    let b = if signs & 2 == 2 { -b } else { b };
+                    let g = [0i64, 0, 0, 0, 0, 1, 2, 3][gap as usize];
+                    Pair { a: D::new(a.to_string(), scale + if ra & 1 == 1 { g } else { 0 }), b: D::new(b.to_string(), scale + if ra & 1 == 1 { 0 } else { g }) }
+                })
+                .boxed()
+        },
+        check_pair,
+    );
     let max_len = t.pick(400usize, 2000);
     ctx.generated("random-pairs", "pair", t.pick(400_000, 10_000_000), "1..max digits, gaps 0..10^4 both directions, zero divisors, twins and exact multiples with either operand at the finer scale, one unit off a multiple, a = -b", move || pair_strategy(max_len), check_pair);
 }
